@@ -26,7 +26,8 @@ ASSUMPTIONS = [
     "that its value changes (caller's object mutated, or a recorded object changing after delivery)",
 ]
 
-TAGSET = st.sets(st.sampled_from(["t", "u", "v", "w"]), max_size=2)
+TAGSET = st.sets(st.sampled_from(["t", "u", "v", "w", "tag-two"]), max_size=2)
+TAGGER_FORM = st.sampled_from(["sets", "sets", "lists", "tuple+frozenset", "iterators", "positional", "none-if-empty", "omit-if-empty"])
 
 
 def node(depth):
@@ -38,9 +39,9 @@ def node(depth):
     return st.one_of(
         sink,
         st.builds(lambda c: {"t": "copy", "children": c}, kids),
-        st.builds(lambda c, a, d: {"t": "tagger", "children": c, "add": sorted(a), "discard": sorted(d)}, kids, TAGSET, TAGSET),
+        st.builds(lambda c, a, d, f: {"t": "tagger", "children": c, "add": sorted(a), "discard": sorted(d), "form": f}, kids, TAGSET, TAGSET, TAGGER_FORM),
         st.builds(lambda c: {"t": "ts", "child": c}, node(depth - 1)),
-        st.builds(lambda c, code: {"t": "queue", "child": c, "code": code}, node(depth - 1), st.sampled_from(["0", "1", "q"])),
+        st.builds(lambda c, code: {"t": "queue", "child": c, "code": code}, node(depth - 1), st.sampled_from(["0", "1", "q", "10"])),
     )
 
 
@@ -54,7 +55,7 @@ def _has(tree, kinds):
 TREE = st.one_of(node(1), node(2), node(3))
 NODE1 = node(1)
 ROUTE11 = st.one_of(streams.ROUTE, st.just(""))       # "" is not None: StreamToQueue documents "otherwise it is prefixed"
-EVENTS = st.lists(streams.event(routes=ROUTE11, stamps=(None, None, 0, 1, 2, "tz", "tz", "future")), min_size=1, max_size=8)
+EVENTS = st.lists(streams.event(routes=ROUTE11, stamps=(None, None, 0, 1, 2, "tz", "tz", "future", "usec", "naive")), min_size=1, max_size=8)
 
 
 @st.composite
@@ -70,6 +71,7 @@ def s_case(draw):
                       "omit_defaults": draw(st.booleans()),
                       "reuse_set": draw(st.booleans())})       # the caller refills one scratch set instead of building a new one
     return {"tree": tree, "calls": calls, "bracket": draw(st.sampled_from(["run", "run", "none"])),
+            "drain": draw(st.sampled_from(["each", "each", "end"])),       # queues consumed after every call, or only at the end
             "TZ": draw(st.sampled_from(["UTC", "JST-9", "EST5EDT", "UTC"]))}     # the process's local time zone
 
 
@@ -97,7 +99,28 @@ def build(tree, sinks, queues, path, ffs):
     if t == "tagger":
         p = path + [("tagger", frozenset(tree["add"]), frozenset(tree["discard"]))]
         add, discard = set(tree["add"]), set(tree["discard"])
-        tagger = StreamTagger([build(c, sinks, queues, p, ffs) for c in tree["children"]], add=add, discard=discard)
+        kids = [build(c, sinks, queues, p, ffs) for c in tree["children"]]
+        form = tree.get("form", "sets")
+        # "add" / "discard" are documented as None or any iterable of tags
+        if form == "lists":
+            tagger = StreamTagger(kids, add=sorted(add), discard=sorted(discard))
+        elif form == "tuple+frozenset":
+            tagger = StreamTagger(kids, add=tuple(sorted(add)), discard=frozenset(discard))
+        elif form == "iterators":
+            tagger = StreamTagger(kids, add=iter(sorted(add)), discard=(x for x in sorted(discard)))
+        elif form == "positional":
+            tagger = StreamTagger(kids, add, discard)
+        elif form == "none-if-empty":
+            tagger = StreamTagger(kids, add=add or None, discard=discard or None)
+        elif form == "omit-if-empty":
+            kw = {}
+            if add:
+                kw["add"] = add
+            if discard:
+                kw["discard"] = discard
+            tagger = StreamTagger(kids, **kw)
+        else:
+            tagger = StreamTagger(kids, add=add, discard=discard)
         # the constructor's arguments stay the caller's: what the caller does with them later is not the tagger's business
         add.add("LATER-ADDED")
         discard.update(("t", "u", "v", "w"))
@@ -191,9 +214,17 @@ def _run_case(spec):
         rest = {f: kw[f] for f in streams.FIELDS[call["npos"]:]}
         if call["omit_defaults"]:
             rest = {f: v for f, v in rest.items() if v != DEFAULTS[f] or isinstance(v, (set, frozenset))}
+        if spec.get("drain") == "end" and kw["test_tags"] is scratch:
+            kw["test_tags"] = set(scratch)      # a late consumer and a refilled scratch set do not go together
+            before = copy.deepcopy(kw)
+            args = [kw[f] for f in streams.FIELDS[:call["npos"]]]
+            rest = {f: kw[f] for f in streams.FIELDS[call["npos"]:]}
+            if call["omit_defaults"]:
+                rest = {f: v for f, v in rest.items() if v != DEFAULTS[f] or isinstance(v, (set, frozenset))}
         try:
             root.status(*args, **rest)
-            drain(queues)
+            if spec.get("drain") != "end":
+                drain(queues)
         except Exception as e:
             kind = type(call["ev"]["test_tags"]).__name__
             vs.append(V("forward", "raises-%s-tags=%s" % (type(e).__name__, kind),
@@ -206,7 +237,7 @@ def _run_case(spec):
         caller_objs.append(kw)
     if spec["bracket"] == "run":
         root.stopTestRun()
-        drain(queues)
+    drain(queues)
     t_end = datetime.datetime.now(streams.UTC)
 
     inputs = [streams.norm_event(c["ev"]) for c in spec["calls"]]
@@ -264,4 +295,4 @@ def _run_case(spec):
 
 def subchecks(tier):
     q = tier == "quick"
-    return [Sub("decorator_trees", run_case, s_case(), 2000 if q else 120000)]
+    return [Sub("decorator_trees", run_case, s_case(), 3500 if q else 120000)]
